@@ -236,8 +236,11 @@ def build(cfg, ev):
         return mw
 
     def eh_body(key, idx, kind, request, error):
+        cin = error.code
+        if kind == 'mutate':
+            error.code, error.message = 2001, 'b'       # edits the object it was given
         new = exceptions.JsonRpcError(code=2001, message='b') if kind == 'replace' else error
-        ev.append({'ev': 'Eh', 'key': key, 'idx': idx, 'cin': abst(error.code), 'cout': abst(new.code),
+        ev.append({'ev': 'Eh', 'key': key, 'idx': idx, 'cin': abst(cin), 'cout': abst(new.code),
                    'rid': a_id(request.id)})
         return new
 
